@@ -82,3 +82,178 @@ LIB = [
     MinMax('mathMin', 'library._math_min', 'min'),
     MinMax('mathMax', 'library._math_max', 'max'),
 ]
+
+
+# -- arrayIndexOf / arrayLastIndexOf (value variant), arraySort (default order), objectNew ---------------------------
+from pyvc.core import is_dict, VDict, Heap           # noqa: E402
+from pyvc.models_calls import ufun as _ufun          # noqa: E402
+
+
+class IndexOf(LibFn):
+    """first (last) index at or after (before) `index` whose element compares equal to `value`; -1 if none. The
+    match-function variant (value is a function) is only covered for exception containment of the plain path."""
+
+    def __init__(self, script_name, qual, model_name, last):
+        super().__init__(script_name, qual, model_name, -1, lambda spx: {'ret': ('any',)})
+        self.last = last
+
+    def axioms(self, K):
+        return [(f'cmp-lemma{ix}', f) for ix, f in enumerate(cmp_axioms(K.heap.term()))]
+
+    def pre(self, K):
+        spx, valid = self.view(K)
+        return super().pre(K) + [('value-is-not-a-match-function', z3.Not(is_func(spx.a[1])))]
+
+    def start(self, spx):
+        h = spx.h
+        a = V.lref(spx.a[0])
+        if self.last:
+            return z3.If(is_none(spx.a[2]), h.llen(a) - 1, as_index(spx.a[2]))
+        return as_index(spx.a[2])
+
+    def post(self, K, out):
+        spx, valid = self.view(K)
+        h = spx.h
+        H = h.term()
+        a = V.lref(spx.a[0])
+        n = h.llen(a)
+        start = self.start(spx)
+        ok = z3.And(valid, start < n)
+        val = spx.a[1]
+        i = z3.Int('i!io')
+        obs = []
+        if out.kind == 'return':
+            r = K.ctx.to_term(out.value)
+            ri = V.i(r)
+            inside = (lambda x: z3.And(x >= 0, x <= start)) if self.last else (lambda x: z3.And(x >= start, x < n))
+            between = (lambda x: z3.And(x > ri, x <= start)) if self.last else (lambda x: z3.And(x >= start, x < ri))
+            obs.append(('returns-only-when-valid', ok))
+            obs.append(('C11+C15.found-index-is-the-nearest-equal-element',
+                        z3.And(is_int(r), z3.If(ri == -1,
+                                                z3.ForAll([i], z3.Implies(inside(i), sp.CMP(H, h.lget(a, i), val) != 0)),
+                                                z3.And(inside(ri), sp.CMP(H, h.lget(a, ri), val) == 0,
+                                                       z3.ForAll([i], z3.Implies(between(i), sp.CMP(H, h.lget(a, i), val) != 0)))))))
+        else:
+            obs.append(('fails-only-when-invalid', z3.Not(ok)))
+            obs.append(('failure-value', self._failure_value(K, spx, out.exc)))
+        obs.append(('frame', sp.frame_same(K.heap, K.heap_after, K.heap.alloc, [spx.argsref], [])))
+        return obs
+
+    @property
+    def loop_specs(self):
+        last = self.last
+
+        def inv(L):
+            K = L.ctx.ghost['K']
+            spx, valid = self.view(K)
+            h = spx.h
+            H = h.term()
+            a = V.lref(spx.a[0])
+            start = self.start(spx)
+            i = z3.Int('i!ioi')
+            seen = (lambda x: z3.And(x <= start, x > start - L.k)) if last else (lambda x: z3.And(x >= start, x < start + L.k))
+            return [('none-equal-so-far', z3.ForAll([i], z3.Implies(seen(i), sp.CMP(H, h.lget(a, i), spx.a[1]) != 0))),
+                    ('index-range', L.k >= 0)]
+        # loop 0 is the match-function variant (excluded by the precondition), loop 1 the value variant
+        return {(self.qual, 1): LoopSpec(inv, heap='unchanged')}
+
+
+from pyvc.core import is_int, is_str     # noqa: E402
+
+
+def array_sort_sem(spx):
+    h = spx.h
+    a = V.lref(spx.a[0])
+    perm = _ufun('SORT_PERM_value.value_compare', HeapSort, Int, z3.ArraySort(Int, Int))(h.term(), a)
+    jj = z3.Int('j!ss')
+    return {'ok': is_none(spx.a[1]), 'ret': ('val', spx.a[0]),
+            'effects': [('list', a, h.llen(a), z3.Lambda([jj], h.lget(a, z3.Select(perm, jj))))]}
+
+
+class ArraySortDefault(LibFn):
+    """arraySort(array) with the default order (the compareFn variant runs script callbacks during the sort and is not
+    under contract)"""
+
+    def __init__(self):
+        super().__init__('arraySort', 'library._array_sort', '_ARRAY_SORT_ARGS', None, array_sort_sem)
+
+    def pre(self, K):
+        spx, valid = self.view(K)
+        return super().pre(K) + [('default-order', z3.Or(z3.Not(valid), is_none(spx.a[1])))]
+
+
+class ObjectNew(LibFn):
+    """objectNew(k1, v1, k2, v2, ...): a fresh object; later pairs win; a missing last value is null; a non-string key
+    fails with null"""
+
+    def __init__(self):
+        super().__init__('objectNew', 'library._object_new', None, None, lambda spx: {'ret': ('any',)}, maxargs=0)
+
+    def post(self, K, out):
+        h0, h1 = K.heap, K.heap_after
+        ref = V.lref(K.term(0))
+        n = h0.llen(ref)
+        i = z3.Int('i!on')
+        keys_ok = z3.ForAll([i], z3.Implies(z3.And(i >= 0, 2 * i < n), is_str(h0.lget(ref, 2 * i))))
+        obs = []
+        if out.kind == 'return':
+            r = K.ctx.to_term(out.value)
+            k = z3.String('k!on')
+            d = V.dref(r)
+            last = LASTKEY(h0.term(), ref, k, (n + 1) / 2)
+            val = z3.If(2 * last + 1 < n, h0.lget(ref, 2 * last + 1), VNone)
+            obs.append(('returns-only-when-valid', keys_ok))
+            obs.append(('C15.fresh-object-with-the-last-value-of-each-key',
+                        z3.And(is_dict(r), d >= h0.alloc,
+                               z3.ForAll([k], z3.And(h1.dhas(d, k) == (last >= 0),
+                                                     z3.Implies(last >= 0, h1.dget(d, k) == val))))))
+        else:
+            obs.append(('fails-only-when-invalid', z3.Not(keys_ok)))
+            spx, _ = self.view(K)
+            obs.append(('failure-value', self._failure_value(K, spx, out.exc)))
+        obs.append(('frame', sp.frame_same(h0, h1, h0.alloc)))
+        return obs
+
+    def axioms(self, K):
+        k = z3.String('k!lk0')
+        return [('LASTKEY-base', z3.ForAll([k], LASTKEY(K.heap.term(), V.lref(K.term(0)), k, 0) == -1))]
+
+    @property
+    def loop_specs(self):
+        def inv(L):
+            K = L.ctx.ghost['K']
+            h0 = K.heap
+            h = L.heap
+            ref = V.lref(K.term(0))
+            n = h0.llen(ref)
+            o = L.term('object_')
+            d = V.dref(o)
+            k = z3.String('k!oni')
+            i = z3.Int('i!oni')
+            last = LASTKEY(h0.term(), ref, k, L.k)
+            val = z3.If(2 * last + 1 < n, h0.lget(ref, 2 * last + 1), VNone)
+            return [('object-fresh', z3.And(is_dict(o), d >= h0.alloc, d < h.alloc)),
+                    ('pairs-so-far', z3.ForAll([k], z3.And(h.dhas(d, k) == (last >= 0), z3.Implies(last >= 0, h.dget(d, k) == val)))),
+                    ('keys-so-far-are-strings', z3.ForAll([i], z3.Implies(z3.And(i >= 0, i < L.k), is_str(h0.lget(ref, 2 * i))))),
+                    ('index-range', z3.And(L.k >= 0, 2 * L.k <= n + 1)),
+                    ('frame', sp.frame_same(h0, h, h0.alloc))]
+
+        def lem(L):
+            K = L.ctx.ghost['K']
+            h0 = K.heap
+            ref = V.lref(K.term(0))
+            k = z3.String('k!onl')
+            key = h0.lget(ref, 2 * L.k)
+            return [z3.ForAll([k], LASTKEY(h0.term(), ref, k, L.k + 1) ==
+                              z3.If(z3.And(is_str(key), V.s(key) == k), L.k, LASTKEY(h0.term(), ref, k, L.k)))]
+        return {(self.qual, 0): LoopSpec(inv, heap='havoc', lemmas=lem, keeps_owned=True)}
+
+
+LASTKEY = _ufun('LASTKEY', HeapSort, Int, Str, Int, Int)    # greatest pair index j < k whose key is the given string, or -1
+
+LIB += [
+    IndexOf('arrayIndexOf', 'library._array_index_of', '_ARRAY_INDEX_OF_ARGS', False),
+    IndexOf('arrayLastIndexOf', 'library._array_last_index_of', '_ARRAY_LAST_INDEX_OF_ARGS', True),
+    ArraySortDefault(),
+    ObjectNew(),
+]
